@@ -1,0 +1,15 @@
+//go:build verif
+
+package interpreter
+
+import "math/big"
+
+// Harness of the BOUNDED check of property C07 (pairing order of Reconcile): two senders and two receivers with
+// arbitrary names (a receiver may be the kept marker) and arbitrary positive amounts. It exists only under the build
+// tag `verif`; the verifier follows the body of Reconcile from here with every loop unrolled (see the contract of this
+// function in zz_contracts_verif.go).
+func reconcilePairing2x2(asset string, s1n, s2n, r1n, r2n string, s1, s2, r1, r2 *big.Int) ([]Posting, InterpreterError) {
+	senders := []Sender{{Name: s1n, Monetary: s1}, {Name: s2n, Monetary: s2}}
+	receivers := []Receiver{{Name: r1n, Monetary: r1}, {Name: r2n, Monetary: r2}}
+	return Reconcile(asset, senders, receivers)
+}
